@@ -55,13 +55,17 @@ InstDevs(rec, E) ==
   THEN {"reject"}
   ELSE
     LET szd  == IF r.sz = E.sz THEN {}
-                ELSE IF E.sz = 8 /\ r.sz = 12 THEN {"literal_twice"} ELSE {"reject"}
+                \* as implemented: every operand of code 255 (and the K of v_madmk/v_madak) adds 4 bytes
+                ELSE IF E.sz = 8 /\ r.sz = 12 /\ Cardinality({i \in 1..3 : E.o[i][1] = "lit"}) >= 2
+                     THEN {"literal_twice"} ELSE {"reject"}
         gdsd == IF r.m[GDS] = E.m[GDS] THEN {}
                 \* as implemented: extractBit(w, 16) = w & 16, i.e. bit 4 of offset0
                 ELSE IF E.f = "ds" /\ r.m[GDS] = (E.m[7] \div 16) % 2 THEN {"ds_gds_bit4"} ELSE {"reject"}
         md   == IF \A i \in 1..Len(E.m) : i # GDS => r.m[i] = E.m[i] THEN {} ELSE {"reject"}
         dstd == IF r.o[DST] = E.o[DST] THEN {}
-                ELSE IF E.f = "ds" /\ r.o[DST] = None THEN {"ds_read_no_dst"} ELSE {"reject"}
+                \* as implemented: DSTWidth = 0 in decodetable.go for these DS reads
+                ELSE IF E.f = "ds" /\ E.op \in {56, 57, 58, 59, 60, 120, 254} /\ r.o[DST] = None
+                     THEN {"ds_read_no_dst"} ELSE {"reject"}
         \* as implemented: a scalar register named by index is looked up as Regs[S0+index],
         \* which is some other (or no) register once index > 101
         lin(i) == /\ (E.f = "smem" /\ i \in {9, 10}) \/ (E.f = "vop2" /\ E.m[18] = 1 /\ i \in {1, 2})
@@ -71,7 +75,8 @@ InstDevs(rec, E) ==
                 ELSE IF \A i \in 1..Len(E.o) : (i # DST /\ r.o[i] # E.o[i]) => lin(i) THEN {"sreg_linear"}
                 ELSE {"reject"}
         \* InstPrinter.Print must accept every decoded instruction
-        prd  == IF r.pr = 1 \/ dstd # {} THEN {} ELSE {"reject"}
+        prd  == IF dstd # {} \/ od # {} THEN {}      \* a deviating operand prints differently
+                ELSE IF r.pr = 1 /\ (Disasm(E) = Unprintable \/ r.ps = Disasm(E)) THEN {} ELSE {"reject"}
         \* b[:size] and b[:size] ++ junk decode to the same instruction
         sxd  == IF ~Has(rec, "sx") \/ rec.sx = 1 THEN {}
                 ELSE IF szd = {"literal_twice"} /\ r.sz > Len(rec.b) THEN {} ELSE {"reject"}
@@ -108,7 +113,7 @@ Accept(rec, E) ==
   LET D == Devs(rec, E) IN
   /\ D \subseteq Deviations
   /\ \A d \in D : PrintT(<<"DEVIATION", l, d, Why(E), Got(rec.r), IF E.k = "inst" THEN E.f ELSE "-">>)
-  /\ ("explore" \in D => PrintT(<<"EXPECTED", l, E>>))
+  /\ ("explore" \in D => PrintT(<<"EXPECTED", l, [e |-> E, text |-> IF E.k = "inst" THEN Disasm(E) ELSE ""]>>))
 
 \* ------------------------------------------------------------------ actions
 TInit == l = 1 /\ mode = "idle" /\ pc = 0 /\ klen = 0
